@@ -44,6 +44,8 @@ def gen_universe(rng: random.Random, *, n_lo: int = 14, n_hi: int = 48, nulls: b
     if rng.random() < ticked_p:
         for name in TICKED[:2] + (TICKED[2:] if rng.random() < 0.4 else []):
             cols[name] = {"kind": "float", "ties": False, "null_rate": 0.0}
+    if rng.random() < 0.3:
+        cols["F"] = {"kind": "bool", "levels": [False, True]}
     ncat = 0
     for name in CATS:
         if rng.random() < 0.6 or (name == "A" and ncat == 0):
@@ -80,7 +82,7 @@ def universe_frame(u: dict) -> Any:
         return _UCACHE[key]
     n = u["n"]
     data: dict[str, Any] = {}
-    order = {nm: i for i, nm in enumerate(NUMERIC + INT + TICKED + CATS)}
+    order = {nm: i for i, nm in enumerate(NUMERIC + INT + TICKED + CATS + ["F"])}
     for name in sorted(u["cols"], key=lambda nm: order.get(nm, 99)):
         c = u["cols"][name]
         g = np.random.Generator(np.random.PCG64([u["seed"], core.h64("col", name) % (2**32)]))
@@ -99,6 +101,10 @@ def universe_frame(u: dict) -> Any:
             data[name] = pd.Series(vals, dtype="float64")
         elif kind == "int":
             data[name] = pd.Series(g.integers(c["lo"], c["hi"] + 1, size=n), dtype="int64")
+        elif kind == "bool":
+            v_ = g.integers(0, 2, size=n).astype(bool)
+            v_[:2] = [False, True]
+            data[name] = pd.Series(v_, dtype="bool")
         else:
             levels = c["levels"]
             idx = g.integers(0, len(levels), size=n)
@@ -219,8 +225,15 @@ def apply_fault(df: Any, u: dict, ids: list[int], fault: dict) -> Any:
             df[v] = pd.Series(vals, index=df.index, dtype=object)
         elif dt == "str":
             df[v] = pd.Series(vals, index=df.index, dtype="str")
+        elif dt == "arrow_str":
+            import pyarrow
+
+            df[v] = pd.Series(vals, index=df.index, dtype=pd.ArrowDtype(pyarrow.string()))  # e.g. read_csv(dtype_backend="pyarrow")
         else:
             df[v] = pd.Series(pd.Categorical(vals), index=df.index)
+    elif kind == "level_alias":
+        # same truth values, other type: True/False arrive as 1/0 (equal under ==, but not the recorded levels)
+        df[v] = pd.Series(df[v].to_numpy().astype("int64" if fault.get("as") != "float" else "float64"), index=df.index)
     elif kind == "level_gain":
         new = fault.get("level", "NEW")
         rows = fault.get("rows")
@@ -381,6 +394,11 @@ def gen_formula(rng: random.Random, u: dict, *, rich: bool = True, structured_p:
     atoms: list[dict] = []
 
     def atom() -> dict:
+        if "F" in cols and rng.random() < 0.2:
+            e = rng.choice(["C(F)", "C(F, contr.sum)", "C(F, levels=[False, True])"])
+            a = {"vars": ["F"], "kind": "cat", "cls": "C", "stateful": True, "bounded": False, "mean_based": False, "expr": e}
+            atoms.append(a)
+            return a
         if cat and rng.random() < 0.4:
             v = rng.choice(cat)
             a = categorical_atoms(rng, v, cols[v]["levels"], rich=rich)
